@@ -98,6 +98,8 @@ type RuleSpec struct {
 
 type GroupSpec struct {
 	Name     string
+	Limit    string // "" = absent
+	Offset   string // query_offset, "" = absent
 	Interval string
 	Labels   [][2]string
 	Rules    []RuleSpec
@@ -152,6 +154,12 @@ func GenGroup(t *rapid.T, label string, minRules, maxRules int) GroupSpec {
 	g := GroupSpec{Name: label}
 	if rapid.IntRange(0, 3).Draw(t, label+".hasint") == 0 {
 		g.Interval = rapid.SampledFrom([]string{"1m", "30s", "5m"}).Draw(t, label+".int")
+	}
+	if rapid.IntRange(0, 5).Draw(t, label+".haslimit") == 0 {
+		g.Limit = rapid.SampledFrom([]string{"0", "10", "1000"}).Draw(t, label+".limit")
+	}
+	if rapid.IntRange(0, 6).Draw(t, label+".hasoffset") == 0 {
+		g.Offset = rapid.SampledFrom([]string{"30s", "1m", "0s"}).Draw(t, label+".offset")
 	}
 	if rapid.IntRange(0, 4).Draw(t, label+".hasglab") == 0 {
 		g.Labels = [][2]string{{rapid.SampledFrom(LabelNames).Draw(t, label+".glk"), rapid.SampledFrom(LabelValues).Draw(t, label+".glv")}}
@@ -583,6 +591,12 @@ func (s *Styler) Group(g GroupSpec) *Node {
 	m.Pairs = append(m.Pairs, Pair{Key: P("name"), Val: nameStyle(g.Name)})
 	if g.Interval != "" {
 		m.Pairs = append(m.Pairs, Pair{Key: P("interval"), Val: P(g.Interval), Before: s.filler()})
+	}
+	if g.Limit != "" {
+		m.Pairs = append(m.Pairs, Pair{Key: P("limit"), Val: P(g.Limit), Before: s.filler()})
+	}
+	if g.Offset != "" {
+		m.Pairs = append(m.Pairs, Pair{Key: P("query_offset"), Val: P(g.Offset), Before: s.filler()})
 	}
 	if len(g.Labels) > 0 {
 		m.Pairs = append(m.Pairs, Pair{Key: P("labels"), Val: s.strMap(g.Labels), Before: s.filler()})
